@@ -13,11 +13,11 @@ RULE = ('generated kernel programs with all features (conditions, interrupts, sh
         'execution; reproducibility is checked in-process and in fresh interpreters under other PYTHONHASHSEEDs')
 REAL = ['onl.sim.core.Environment.run/step/schedule', 'onl.sim.events.*', 'network elements of the scenarios']
 STUBS = ['process bodies, plain callbacks, the driver that issues the split plan']
-ASSUMPTIONS = ['a run(until=event) stop is only placed on events that succeed in the reference run or never trigger',
+ASSUMPTIONS = ['a run(until=event) stop is placed on events that succeed, fail or never trigger in the reference run',
                'programs in which an exception escapes step() are split with step() only',
                'canonical trace = all recorded observations and processings, minus the stop sentinels, minus action '
                'and step numbers']
-PROBES = ['big_int_clock', 'network_scenario', 'pipeline_scenario', 'stop_at_instant_with_due_normal_event', 'until_event_gains_waiter_after_run_began',
+PROBES = ['until_event_failed', 'big_int_clock', 'network_scenario', 'pipeline_scenario', 'stop_at_instant_with_due_normal_event', 'until_event_gains_waiter_after_run_began',
           'until_event_already_processed', 'nasty_stop_time', 'illegal_stop_refused', 'step_split', 'until_event_stop']
 
 
@@ -195,7 +195,7 @@ def gen(rng, tier):
     ref = setup_world(case)
     drive(ref, [['run']], max_steps=3000)
     dues = sorted(set((r[8] if big_int_clock else float(r[8])) for r in ref.env.log if r[0] == 'T'))
-    ok_events = [r[2] for r in ref.env.log if r[0] == 'P' and r[5] is True and
+    ok_events = [r[2] for r in ref.env.log if r[0] == 'P' and r[5] in (True, False) and
                  (r[2] in ref.shared or r[2] in ref.procs or r[2] in ref.named)]
     never = [lb for lb in list(ref.shared) if lb not in set(r[2] for r in ref.env.log if r[0] == 'P')]
     plan = []
@@ -269,12 +269,15 @@ def check_split(w, case, ref_log):
     # walk the log: D records delimit run() calls
     Tdue = {}
     processed = set()
+    Pfail = {}
     for idx, r in enumerate(log):
         tag = r[0]
         if tag == 'T':
             Tdue[r[2]] = (r[8], r[3], r[1])
         elif tag == 'P':
             processed.add(r[2])
+            if r[5] is False and isinstance(r[6], tuple):
+                Pfail[r[2]] = r[6]
         elif tag == 'D':
             what = r[4]
             if what == 'until':
@@ -338,7 +341,10 @@ def check_split(w, case, ref_log):
                                 stats['until_event_gains_waiter_after_run_began'] = 1
                                 break
                 elif out == 'exc':
-                    if not (isinstance(val, tuple) and val[1] == 'RuntimeError' and lb not in processed):
+                    pf = Pfail.get(lb)
+                    if pf is not None and isinstance(val, tuple) and val[1:] == pf[1:]:
+                        stats['until_event_failed'] = 1      # the until-event failed: run() reports that failure
+                    elif not (isinstance(val, tuple) and val[1] == 'RuntimeError' and lb not in processed):
                         viol.append(('C03.3', 'run(until=%s) raised %r' % (lb, val)))
     if isinstance(case.get('t0'), int) and case.get('t0', 0) > 2 ** 53:
         stats['big_int_clock'] = 1
